@@ -50,17 +50,33 @@ func init() {
 				break
 			}
 		}
+		// exact replay (-case): the recorded world, Add calls and failing call index take an extra last
+		// slot and run first, alone
+		replayIdx := -1
+		{
+			var rin struct {
+				bCase
+				FailCall int `json:"fail_call"`
+				Of       int `json:"of"`
+			}
+			if !loadReplayInput(cfg, "builder-faults", &rin) {
+				replayMissing(cfg, rep, "builder-faults")
+			} else if why := checkBCase(&rin.bCase); why != "" {
+				rep.ReplayNote("refused: " + why)
+			} else if rin.FailCall <= 0 {
+				rep.ReplayNote("the recorded input names no failing call (fail_call)")
+			} else {
+				c := rin.bCase
+				jobs = append(jobs, job{c: &c, failAt: rin.FailCall, total: rin.Of})
+				replayIdx = len(jobs) - 1
+			}
+		}
 		reqs := make([]string, len(jobs))
 		impl := make([]string, len(jobs))
 		human := make([]interface{}, len(jobs))
 		var wg sync.WaitGroup
 		sem := make(chan struct{}, 16)
-		for i := range jobs {
-			wg.Add(1)
-			sem <- struct{}{}
-			go func(i int) {
-				defer wg.Done()
-				defer func() { <-sem }()
+		runJob := func(i int) {
 				j := jobs[i]
 				target := filepath.Join(cfg.Work, fmt.Sprintf("bf%06d", i))
 				os.MkdirAll(target, 0755)
@@ -171,6 +187,22 @@ func init() {
 				reqs[i] = "builder " + encodeWorldWithUniverse(&w2, j.c.World) + " " + encOps(j.c.World, j.c.Ops)
 				impl[i] = run.canon(j.c.World)
 				human[i] = in
+		}
+		if replayIdx >= 0 {
+			rep.BeginReplay()
+			runJob(replayIdx)
+			rep.EndReplay(reqs[replayIdx])
+		}
+		for i := range jobs {
+			if i == replayIdx {
+				continue
+			}
+			wg.Add(1)
+			sem <- struct{}{}
+			go func(i int) {
+				defer wg.Done()
+				defer func() { <-sem }()
+				runJob(i)
 			}(i)
 		}
 		wg.Wait()
